@@ -4,6 +4,7 @@
 (* A password is a sequence of symbols; Bytes() gives its encoded bytes    *)
 (* (characters are not bytes: "m2" is one character of two bytes).         *)
 (*   a  "a"      A  "A" (case partner of a)     b  "b"     sp  blank       *)
+(*   tb  tab (a blank too)    nl  line feed, ff  form feed: white space but NOT blanks  *)
 (*   hi  a single byte differing from "a" only in bit 7 (bytes input only) *)
 (*   m2  a two-byte character      nul  NUL      f  a filler byte          *)
 (* A hasher class is a record of its documented equivalences:              *)
@@ -19,9 +20,9 @@
 (***************************************************************************)
 EXTENDS Naturals, Sequences, FiniteSets, SequencesExt
 
-Symbols == {"a", "A", "b", "sp", "hi", "m2", "nul", "f"}
+Symbols == {"a", "A", "b", "sp", "tb", "nl", "ff", "hi", "m2", "nul", "f"}
 \* abstract bytes: <<letter, high bit>>; the two bytes of m2 are distinct from everything else
-SymBytes(s) == CASE s = "a" -> <<"a">> [] s = "A" -> <<"A">> [] s = "b" -> <<"b">> [] s = "sp" -> <<"sp">>
+SymBytes(s) == CASE s = "a" -> <<"a">> [] s = "A" -> <<"A">> [] s = "b" -> <<"b">> [] s = "sp" -> <<"sp">> [] s = "tb" -> <<"tb">> [] s = "nl" -> <<"nl">> [] s = "ff" -> <<"ff">>
                  [] s = "hi" -> <<"a^">> [] s = "m2" -> <<"m2x", "m2y">> [] s = "nul" -> <<"nul">> [] OTHER -> <<"f">>
 Bytes(p) == FlattenSeq([i \in 1..Len(p) |-> SymBytes(p[i])])
 
@@ -31,7 +32,7 @@ Canon(cls, bs) ==
     LET t == IF cls.trunc > 0 /\ Len(bs) > cls.trunc THEN SubSeq(bs, 1, cls.trunc) ELSE bs
         s == IF cls.strip8 THEN [i \in 1..Len(t) |-> Strip8(t[i])] ELSE t
         c == IF cls.fold THEN [i \in 1..Len(s) |-> Fold(s[i])] ELSE s
-    IN IF cls.blanks THEN SelectSeq(c, LAMBDA b : b # "sp") ELSE c
+    IN IF cls.blanks THEN SelectSeq(c, LAMBDA b : b \notin {"sp", "tb"}) ELSE c      \* space and tab, nothing else
 
 HasNul(bs) == \E i \in 1..Len(bs) : bs[i] = "nul"
 
